@@ -204,7 +204,14 @@ def build(model: dict) -> Tuple[bytes, RolandLayout]:
 
     for i, pt in enumerate(model.get("partials", [])):
         put(PART_DIR + DIR_SZ * slot["partials"][i], direntry(pt["name"], 0x43))
-        sp = ref("samples", pt.get("samples", [])) + [-1] * 4
+        raw4 = list(pt.get("samples", []))
+        if pt.get("gaps"):
+            # the four sample slots of a partial need not be filled from the front
+            slots4 = [-1, -1, -1, -1]
+            for pos, smp in zip(pt["gaps"], raw4):
+                slots4[pos] = smp
+            raw4 = slots4
+        sp = [(slot["samples"][x] if 0 <= x < len(slot["samples"]) else x) for x in raw4] + [-1] * 4
         body = s(pt["name"], 16) + sec(sp[0]) + b"\0" * 5 + sec(sp[1]) + b"\0" * 5 + sec(sp[2]) + b"\0" * 5 + sec(sp[3])
         body = body.ljust(PART_PSZ, b"\0")
         assert len(body) == PART_PSZ
